@@ -172,12 +172,18 @@ def check_dump(d, res, wit):
     cs = pathmodel.exact_defs_many(conds) if d["refined"] else list(conds)
     C = z3.And(*[c.translate(ctx) for c in cs]) if cs else z3.BoolVal(True, ctx)
     if d["cache"]:
-        ids = [z3.Bool(str(i), ctx) for i in orig_q.assertions]
-        named = re.findall(r"\(assert \(! \|(\d+)\| :named <(\d+)>\)\)", text)
-        if sorted(a for a, b in named) != sorted(orig_q.assertions) or any(a != b for a, b in named) or len(orig_q.assertions) != len(conds):
-            res["violations"].append(dict(what="named assertions differ from query.assertions / the path conditions", key="named-ids", mode=mode, n_named=len(named), n_ids=len(orig_q.assertions), n_conds=len(conds), **wit))
+        # read as the code under test reads it (it may be iterated more than once: dump, unsat-core containment, refinement)
+        q_ids = list(orig_q.assertions)
+        q_ids_again = list(orig_q.assertions)
+        if q_ids != q_ids_again:
+            res["violations"].append(dict(what="query.assertions reads differently the second time (the named assertions vanish on a later read)", key="ids-one-shot", mode=mode, first=len(q_ids), second=len(q_ids_again), **wit))
             return
-        if set(orig_q.assertions) != {str(c.get_id()) for c in conds}:
+        ids = [z3.Bool(str(i), ctx) for i in q_ids]
+        named = re.findall(r"\(assert \(! \|(\d+)\| :named <(\d+)>\)\)", text)
+        if sorted(a for a, b in named) != sorted(q_ids) or any(a != b for a, b in named) or len(q_ids) != len(conds):
+            res["violations"].append(dict(what="named assertions differ from query.assertions / the path conditions", key="named-ids", mode=mode, n_named=len(named), n_ids=len(q_ids), n_conds=len(conds), **wit))
+            return
+        if set(q_ids) != {str(c.get_id()) for c in conds}:
             res["violations"].append(dict(what="assertion ids are not the ids of the path conditions", key="ids-not-cond-ids", mode=mode, **wit))
             return
         C = z3.And(C, *ids) if ids else C
